@@ -97,6 +97,12 @@ CHECKS = {
    note="Trusted: TLC, the relay, wall-clock measurements with 1.5 s slack. Heartbeat interval 1 s / timeout 3 s; tcp transport with mux on and off; eventual healing is established as bounded-time instances.",
    technique="TLA+ spec Liveness model-checked with TLC (safety + liveness) + validation of the real back-off function and of measured fault scenarios (Trace_Liveness)",
    design="4 (C14), 3.8"),
+ "C16": dict(
+   level="model_checking",
+   text="The interleaving part of the crash overlay is carried by the modules with a panic / leak flag (FrpsGroups NoPanic: double close of the hand-off channel, FrpsWorkPool NoLeak, NameTable), exhaustively checked by TLC; Crash fixes the message alphabet (18 types x boundary classes x before / after login). A sacrificial process runs a real frps and sends the whole alphabet from several connections at once, followed after every batch by a liveness probe (fresh login + registration + tunnel connect), plus concurrent xtcp register / close against pre-check requests; eight stress scenarios of the other modules (gate-scheduled races, floods, name races) run in sacrificial processes of their own; exit status, stderr (panic: / fatal error:) and unanswered requests (stalled message handling) are classified and judged by TLC (Trace_Crash). Thorough tier builds with the race detector.",
+   note="Trusted: TLC, process exit classification. Field values outside the enumerated classes and frpc-side malformed replies (beyond the C14 scripted server) are not covered.",
+   technique="TLA+ crash overlay (NoPanic / NoLeak invariants model-checked in FrpsGroups / FrpsWorkPool, alphabet in Crash) + sacrificial-process execution of the alphabet and of stress scenarios, judged by TLC (Trace_Crash)",
+   design="4 (C16), 3.9"),
 }
 
 hooks_commits = subprocess.run("git -C /repo log --format=%h --grep='^verif:' --reverse", shell=True, capture_output=True, text=True).stdout.split()
